@@ -497,7 +497,11 @@ class BackendZ3(Backend):
 
     @condom
     def StringV(self, ast):
-        return z3.StringVal(ast.args[0], ctx=self._context)
+        # build the literal from code points: z3.StringVal would interpret escape sequences such as \\u{48} in the text
+        value = ast.args[0]
+        chars = (ctypes.c_uint * len(value))(*map(ord, value))
+        ctx = self._context
+        return z3.SeqRef(z3.Z3_mk_u32string(ctx.ref(), len(value), chars), ctx)
 
     @condom
     def StringS(self, ast):
